@@ -8,6 +8,10 @@ ctx = dict(
          (r'(?<![\w>.])evt_\.set\(\)', 'EV_evt_set(self)')],
     members=['opState_', 'scope_'],
 )
+nr_ctx = dict(cls='nest_receiver', members=['op_'], raii={'scope_reference': ('SR_CTOR', 'SR_DTOR')},
+              pre=[(r'auto scope = std::move\(op->scope_\);', 'scope_reference scope; SR_MOVE(&scope, &op->scope_);'),
+                   (r'op->op_\.destruct\(\);', 'EV_inner_destruct(op);'),
+                   (r'func\(std::move\(op->receiver_\)\);', 'EV_complete_receiver(op);')])
 SPEC = dict(
     properties=['C08'],
     ctx=ctx,
@@ -26,6 +30,7 @@ SPEC = dict(
         'use_count_m': dict(file=H, sig=r'std::size_t use_count\(\) const noexcept'),
         'scope_or_nullptr': dict(file=H, sig=r'scope_reference::scope_or_nullptr\(async_scope\* scope\) noexcept'),
         'scope_reference_dtor': dict(file=H, sig=r'inline scope_reference::~scope_reference\(\)'),
+        'nest_complete': dict(file=H, sig=r'void complete\(Func func\) noexcept', within=r'struct _nest_receiver<Sender, Receiver>::type final \{', ctx=nr_ctx),
     },
     closed_world=[dict(file=H, members=['opState_'], within=CLS,
                        allow=[r'std::atomic<std::size_t> opState_\{'])],
@@ -40,6 +45,7 @@ SPEC = dict(
              replace=['try_record_start']),
         dict(name='scope_reference_dtor', harness='h_scope_reference_dtor', enforce='scope_reference_dtor',
              replace=['record_completion']),
+        dict(name='nest_receiver_complete', harness='h_nest_complete', enforce='nest_receiver_complete', replace=['scope_reference_dtor']),
         dict(name='lemma_scope_protocol', harness='lemma_scope_protocol', mode='lemma'),
         dict(name='lemma_scope_init', harness='lemma_scope_init', mode='lemma'),
     ],
@@ -49,5 +55,5 @@ SPEC = dict(
         'count < 2^40 (resource bound standing in for UNIFEX_ASSERT(opState + 2u > opState))',
         'atomics sequentially consistent',
     ],
-    drops=['memory orders', 'noexcept/[[nodiscard]]/friend', 'evt_.set() replaced by event stub EV_evt_set'],
+    drops=['scope_reference move construction (auto scope = std::move(op->scope_)) -> SR_MOVE + explicit destructor call at scope exit', 'inner operation destruct / receiver completion in _nest_receiver::complete -> event stubs', 'memory orders', 'noexcept/[[nodiscard]]/friend', 'evt_.set() replaced by event stub EV_evt_set'],
 )
